@@ -34,24 +34,25 @@ Ltac fin_upd :=
   try (fwd; brk; subst; try discriminate; try congruence; eauto).
 
 Section Step2.
+  Variable stop_locked : bool.
   Variable validated : bool.
   Variable mux_ok : list str -> bool.
-  Notation Inv := (Inv mux_ok).
-  Notation step_core := (step_core validated mux_ok).
+  Notation Inv := (Inv stop_locked mux_ok).
+  Notation step_core := (step_core stop_locked validated mux_ok).
 
   Lemma reload_rpc s i : Inv s -> holder s = Some (ByReload i) ->
     fsm_st s = FReloading /\ (rpc s = RSelect \/ rpc s = RWantStop).
   Proof.
-    intros I Hh. pose proof (i_rel _ _ I i Hh) as Hf. split; [exact Hf|].
+    intros I Hh. pose proof (i_rel _ _ _ I i Hh) as Hf. split; [exact Hf|].
     destruct (rpc s) eqn:Er; auto; exfalso.
-    - destruct (i_early _ _ I) as (_ & _ & H); [auto|]. congruence.
-    - destruct (i_early _ _ I) as (_ & _ & H); [auto|]. congruence.
-    - destruct (i_early _ _ I) as (_ & _ & H); [auto|]. congruence.
-    - assert (holder s = Some ByRun) by (apply (i_rpc _ _ I); auto). congruence.
-    - assert (fsm_st s = FBooting) by (apply (i_boot _ _ I); auto). congruence.
-    - assert (holder s = Some ByRun) by (apply (i_rpc _ _ I); auto). congruence.
-    - destruct (i_ret _ _ I) as ([H|H] & _); [left; eauto| |]; congruence.
-    - destruct (i_ret _ _ I) as ([H|H] & _); [auto| |]; congruence.
+    - destruct (i_early _ _ _ I) as (_ & _ & H); [auto|]. congruence.
+    - destruct (i_early _ _ _ I) as (_ & _ & H); [auto|]. congruence.
+    - destruct (i_early _ _ _ I) as (_ & _ & H); [auto|]. congruence.
+    - assert (holder s = Some ByRun) by (apply (i_rpc _ _ _ I); auto). congruence.
+    - assert (fsm_st s = FBooting) by (apply (i_boot _ _ _ I); auto). congruence.
+    - assert (holder s = Some ByRun) by (apply (i_rpc _ _ _ I); auto). congruence.
+    - destruct (i_ret _ _ _ I) as ([H|H] & _); [left; eauto| |]; congruence.
+    - destruct (i_ret _ _ _ I) as ([H|H] & _); [auto| |]; congruence.
   Qed.
 
   Lemma step_Fetch s s' r : Inv s -> step_core s (LFetch r) = Some s' -> Inv s'.
@@ -98,9 +99,9 @@ Section Step2.
       by (intros j sv0 H1 H2; rewrite (Hall j sv0 H1) in H2; discriminate).
     destruct (holder s) as [[|i]|] eqn:Eh; try discriminate.
     - (* Run *)
-      destruct (i_run _ _ I Eh) as [[_ Hb]|[Er _]]; [destruct (kpc s); contradiction|].
+      destruct (i_run _ _ _ I Eh) as [[_ Hb]|[Er _]]; [destruct (kpc s); contradiction|].
       assert (Hnr : fsm_st s <> FReloading).
-      { intros E. destruct (i_reloading _ _ I E) as [i Hi]. congruence. }
+      { intros E. destruct (i_reloading _ _ _ I E) as [i Hi]. congruence. }
       destruct r.
       + destruct (fsm_allowed (fsm_st (with_crit (with_server s None od0) None KFree)) FStopped) eqn:Ea; injection H as <-;
           start I s; subst; fin; try (exfalso; eauto).
@@ -118,11 +119,11 @@ Section Step2.
     destruct (once_done s) eqn:Eo.
     - eapply step_stop_done; [exact I|rewrite Ek; exact Logic.I| |exact H].
       intros j sv0 Hn. destruct (s_shut sv0) eqn:Es; [reflexivity|].
-      destruct (i_live _ _ I j) as [_ Ho]; [exists sv0; auto|]. congruence.
+      destruct (i_live _ _ _ I j) as [_ Ho]; [exists sv0; auto|]. congruence.
     - destruct (server s) eqn:Esv; [discriminate|].
       eapply step_stop_done; [exact I|rewrite Ek; exact Logic.I| |exact H].
       intros j sv0 Hn. destruct (s_shut sv0) eqn:Es; [reflexivity|].
-      destruct (i_live _ _ I j) as [Ho _]; [exists sv0; auto|]. congruence.
+      destruct (i_live _ _ _ I j) as [Ho _]; [exists sv0; auto|]. congruence.
   Qed.
 
   Lemma step_ShutdownRet_stop s s' sid r :
@@ -132,8 +133,8 @@ Section Step2.
     intros I Ek Hr H.
     eapply step_stop_done; [exact I|rewrite Ek; exact Logic.I| |exact H].
     intros j sv0 Hn. destruct (s_shut sv0) eqn:Es; [reflexivity|].
-    destruct (i_live _ _ I j) as [Ho _]; [exists sv0; auto|].
-    destruct (i_wait _ _ I sid) as (Hs & sv1 & Hn1 & Hsh); [auto|].
+    destruct (i_live _ _ _ I j) as [Ho _]; [exists sv0; auto|].
+    destruct (i_wait _ _ _ I sid) as (Hs & sv1 & Hn1 & Hsh); [auto|].
     rewrite Ho in Hs. injection Hs as ->. congruence.
   Qed.
 
@@ -147,7 +148,7 @@ Section Step2.
     assert (Hno : forall j sv, nth_error (servers s) j = Some sv -> s_shut sv = false -> False)
       by (intros j sv0 H1 H2; rewrite (Hall j sv0 H1) in H2; discriminate).
     destruct (holder s) as [[|i]|] eqn:Eh; try discriminate.
-    - destruct (i_run _ _ I Eh) as [[Er _]|[_ Hb]]; [|destruct (kpc s); contradiction].
+    - destruct (i_run _ _ _ I Eh) as [[Er _]|[_ Hb]]; [|destruct (kpc s); contradiction].
       injection H as <-. start I s; subst; fin; try (exfalso; eauto).
     - destruct (reload_rpc s i I Eh) as (Ef & Er).
       injection H as <-; start I s; subst; destruct Er; subst rp; fin; try (exfalso; eauto).
@@ -160,21 +161,21 @@ Section Step2.
     destruct (once_done s) eqn:Eo; [discriminate|].
     destruct (Nat.eqb sid sid') eqn:En; [|discriminate]. apply Nat.eqb_eq in En. subst sid'.
     injection H as <-.
-    destruct (i_srv _ _ I sid Esv) as [sv0 Hsv0].
+    destruct (i_srv _ _ _ I sid Esv) as [sv0 Hsv0].
     assert (Hone : forall j sv, nth_error (servers s) j = Some sv -> s_shut sv = false -> j = sid).
-    { intros j sv1 H1 H2. destruct (i_live _ _ I j) as [Hj _]; [exists sv1; auto|]. congruence. }
+    { intros j sv1 H1 H2. destruct (i_live _ _ _ I j) as [Hj _]; [exists sv1; auto|]. congruence. }
     assert (Hnew : keep (exists sv, nth_error (upd_srv (servers s) sid set_shut) sid = Some sv /\ s_shut sv = true))
       by (eexists; split; [apply (upd_exists _ _ _ _ Hsv0)|reflexivity]).
     destruct (holder s) as [[|i]|] eqn:Eh.
-    - destruct (i_run _ _ I Eh) as [[_ Hb]|[Er _]]; [rewrite Ek in Hb; contradiction|].
+    - destruct (i_run _ _ _ I Eh) as [[_ Hb]|[Er _]]; [rewrite Ek in Hb; contradiction|].
       assert (Hnr : fsm_st s <> FReloading).
-      { intros E. destruct (i_reloading _ _ I E) as [i Hi]. congruence. }
+      { intros E. destruct (i_reloading _ _ _ I E) as [i Hi]. congruence. }
       start I s. subst. fin_upd.
       all: match goal with |- ?G => idtac "GOAL:" G end.
     - destruct (reload_rpc s i I Eh) as (Ef & Er).
       start I s. subst. destruct Er; subst rp; fin_upd.
       all: match goal with |- ?G => idtac "GOAL:" G end.
-    - apply (i_free _ _ I) in Eh. congruence.
+    - apply (i_free _ _ _ I) in Eh. congruence.
   Qed.
 
   Lemma step_ShutdownRet s s' sid r : Inv s -> step_core s (LShutdownRet sid r) = Some s' -> Inv s'.
@@ -186,8 +187,8 @@ Section Step2.
     - destruct (Nat.eqb sid sid0); [|discriminate].
       assert (Hall : forall j sv, nth_error (servers s) j = Some sv -> s_shut sv = true).
       { intros j sv0 Hn. destruct (s_shut sv0) eqn:Es; [reflexivity|].
-        destruct (i_live _ _ I j) as [Ho _]; [exists sv0; auto|].
-        destruct (i_wait _ _ I sid0) as (Hs & sv1 & Hn1 & Hsh); [auto|].
+        destruct (i_live _ _ _ I j) as [Ho _]; [exists sv0; auto|].
+        destruct (i_wait _ _ _ I sid0) as (Hs & sv1 & Hn1 & Hsh); [auto|].
         rewrite Ho in Hs. injection Hs as ->. congruence. }
       destruct r; try discriminate; (eapply step_fail_boot; [exact I|rewrite Ek; exact Logic.I|exact Hall|exact H]).
   Qed.
@@ -197,10 +198,10 @@ Section Step2.
     intros I H. unfold step_core in H. destruct (crashed s); [discriminate|].
     destruct (kpc s) eqn:Ek; try discriminate.
     destruct (new_config_ok _ _ _); [discriminate|].
-    pose proof (i_wantboot _ _ I Ek) as Hs.
+    pose proof (i_wantboot _ _ _ I Ek) as Hs.
     assert (Hall : forall j sv, nth_error (servers s) j = Some sv -> s_shut sv = true).
     { intros j sv0 Hn. destruct (s_shut sv0) eqn:Es; [reflexivity|].
-      destruct (i_live _ _ I j) as [Ho _]; [exists sv0; auto|]. congruence. }
+      destruct (i_live _ _ _ I j) as [Ho _]; [exists sv0; auto|]. congruence. }
     eapply (step_fail_boot s s' (once_done s)); [exact I|rewrite Ek; exact Logic.I|exact Hall|].
     rewrite <- H. unfold fail_boot. cbn [holder with_server].
     destruct s; cbn in *; subst; reflexivity.
@@ -210,10 +211,10 @@ Section Step2.
     Inv s -> kpc s = KProbe sid -> Inv (with_crit s (holder s) (KBootFail sid)).
   Proof.
     intros I Ek. destruct (holder s) as [[|i]|] eqn:Eh.
-    - destruct (i_run _ _ I Eh) as [[Er _]|[_ Hb]]; [|rewrite Ek in Hb; contradiction].
+    - destruct (i_run _ _ _ I Eh) as [[Er _]|[_ Hb]]; [|rewrite Ek in Hb; contradiction].
       start I s. subst. fin.
     - destruct (reload_rpc s i I Eh) as (Ef & Er). start I s. subst. destruct Er; subst rp; fin.
-    - apply (i_free _ _ I) in Eh. congruence.
+    - apply (i_free _ _ _ I) in Eh. congruence.
   Qed.
 
   Lemma step_ProbeOk s s' : Inv s -> step_core s LProbeOk = Some s' -> Inv s'.
@@ -224,19 +225,19 @@ Section Step2.
     destruct (errs s); [|discriminate].
     destruct (_ && _) eqn:Eg; [|discriminate]. apply andb_true_iff in Eg as [Eg _].
     assert (Hl : s_pc sv0 = SvListening).
-    { destruct (i_probe _ _ I sid) as (sv1 & Hn & Hsh); [auto|]. rewrite Es in Hn. injection Hn as <-.
+    { destruct (i_probe _ _ _ I sid) as (sv1 & Hn & Hsh); [auto|]. rewrite Es in Hn. injection Hn as <-.
       apply orb_true_iff in Eg as [Eg|Eg]; apply sv_pc_eqb_eq in Eg; [exact Eg|].
-      destruct (i_pc _ _ I sid sv0 Es) as [?|[?|[_ ?]]]; congruence. }
+      destruct (i_pc _ _ _ I sid sv0 Es) as [?|[?|[_ ?]]]; congruence. }
     unfold boot_ok in H.
     assert (Hone : forall j sv, nth_error (servers s) j = Some sv -> s_shut sv = false -> j = sid).
-    { intros j sv1 H1 H2. destruct (i_live _ _ I j) as [Hj _]; [exists sv1; auto|].
-      destruct (i_probe _ _ I sid) as (sv2 & Hn & Hsh); [auto|].
-      destruct (i_live _ _ I sid) as [Hj' _]; [exists sv2; auto|]. congruence. }
+    { intros j sv1 H1 H2. destruct (i_live _ _ _ I j) as [Hj _]; [exists sv1; auto|].
+      destruct (i_probe _ _ _ I sid) as (sv2 & Hn & Hsh); [auto|].
+      destruct (i_live _ _ _ I sid) as [Hj' _]; [exists sv2; auto|]. congruence. }
     assert (Hlive : keep (exists j, server s = Some j /\ exists sv, nth_error (servers s) j = Some sv /\ s_shut sv = false)).
-    { destruct (i_probe _ _ I sid) as (sv2 & Hn & Hsh); [auto|].
-      destruct (i_live _ _ I sid) as [Hj' _]; [exists sv2; auto|]. exists sid. split; [exact Hj'|eauto]. }
+    { destruct (i_probe _ _ _ I sid) as (sv2 & Hn & Hsh); [auto|].
+      destruct (i_live _ _ _ I sid) as [Hj' _]; [exists sv2; auto|]. exists sid. split; [exact Hj'|eauto]. }
     destruct (holder s) as [[|i]|] eqn:Eh; try discriminate.
-    - destruct (i_run _ _ I Eh) as [[Er _]|[_ Hb]]; [|rewrite Ek in Hb; contradiction].
+    - destruct (i_run _ _ _ I Eh) as [[Er _]|[_ Hb]]; [|rewrite Ek in Hb; contradiction].
       injection H as <-. start I s. subst. fin;
         try (match goal with H : nth_error _ ?j = Some ?x, H' : s_shut ?x = false |- _ =>
                assert (j = sid) by eauto; subst; congruence end);
@@ -253,7 +254,7 @@ Section Step2.
   Proof.
     intros Hl I H. unfold step_core in H. destruct (crashed s); [discriminate|].
     destruct Hl as [-> | [-> | ->]].
-    - destruct (kpc s); try discriminate. rewrite (i_errs _ _ I) in H. discriminate.
+    - destruct (kpc s); try discriminate. rewrite (i_errs _ _ _ I) in H. discriminate.
     - destruct (kpc s) eqn:Ek; try discriminate. destruct (ctx_cancelled s); [|discriminate].
       injection H as <-. now apply step_ProbeFail.
     - destruct (kpc s) eqn:Ek; try discriminate. destruct (srv_at s sid); [|discriminate].
@@ -268,17 +269,17 @@ Section Step2.
     apply andb_true_iff in Eg as [Eg Eo]. apply andb_true_iff in Eg as [E1 E2].
     apply Nat.eqb_eq in E1, E2. subst sid0 sid''. apply negb_true_iff in Eo.
     injection H as <-.
-    destruct (i_srv _ _ I sid Esv) as [sv0 Hsv0].
+    destruct (i_srv _ _ _ I sid Esv) as [sv0 Hsv0].
     assert (Hone : forall j sv, nth_error (servers s) j = Some sv -> s_shut sv = false -> j = sid).
-    { intros j sv1 H1 H2. destruct (i_live _ _ I j) as [Hj _]; [exists sv1; auto|]. congruence. }
+    { intros j sv1 H1 H2. destruct (i_live _ _ _ I j) as [Hj _]; [exists sv1; auto|]. congruence. }
     assert (Hnew : keep (exists sv, nth_error (upd_srv (servers s) sid set_shut) sid = Some sv /\ s_shut sv = true))
       by (eexists; split; [apply (upd_exists _ _ _ _ Hsv0)|reflexivity]).
     destruct (holder s) as [[|i]|] eqn:Eh.
-    - destruct (i_run _ _ I Eh) as [[Er _]|[_ Hb]]; [|rewrite Ek in Hb; contradiction].
+    - destruct (i_run _ _ _ I Eh) as [[Er _]|[_ Hb]]; [|rewrite Ek in Hb; contradiction].
       start I s. subst. fin_upd.
     - destruct (reload_rpc s i I Eh) as (Ef & Er).
       start I s. subst. destruct Er; subst rp; fin_upd.
-    - apply (i_free _ _ I) in Eh. congruence.
+    - apply (i_free _ _ _ I) in Eh. congruence.
   Qed.
 
   Lemma step_contra s s' l :
@@ -292,18 +293,18 @@ Section Step2.
       apply andb_true_iff in Eg as [E1 Eb]. apply sv_pc_eqb_eq in E1.
       destruct (s_shut sv0) eqn:E2.
       { destruct (net_get (net s) (addr (s_cfg sv0))) as [[|j]|] eqn:En; try discriminate.
-        apply get_in in En. destruct (i_own _ _ I _ _ En) as [j Hj]. discriminate. }
+        apply get_in in En. destruct (i_own _ _ _ I _ _ En) as [j Hj]. discriminate. }
       unfold bound_any in Eb. destruct (net_get (net s) (addr (s_cfg sv0))) as [o|] eqn:En; [|discriminate].
-      apply get_in in En. destruct (i_own _ _ I _ _ En) as [j ->].
-      destruct (i_net _ _ I _ _ En) as (sv1 & Hn1 & Hs1 & Hp1 & _).
-      destruct (i_live _ _ I j) as [Hj _]; [exists sv1; auto|].
-      destruct (i_live _ _ I sid) as [Hj' _]; [exists sv0; auto|].
+      apply get_in in En. destruct (i_own _ _ _ I _ _ En) as [j ->].
+      destruct (i_net _ _ _ I _ _ En) as (sv1 & Hn1 & Hs1 & Hp1 & _).
+      destruct (i_live _ _ _ I j) as [Hj _]; [exists sv1; auto|].
+      destruct (i_live _ _ _ I sid) as [Hj' _]; [exists sv0; auto|].
       assert (j = sid) by congruence. subst. congruence.
     - destruct (srv_at s sid) as [sv0|] eqn:Es; [|discriminate]. unfold srv_at in Es.
       destruct (errs s); [|discriminate]. destruct (sv_pc_eqb _ _) eqn:E1; [|discriminate].
-      apply sv_pc_eqb_eq in E1. destruct (i_pc _ _ I sid sv0 Es) as [?|[?|[? _]]]; congruence.
+      apply sv_pc_eqb_eq in E1. destruct (i_pc _ _ _ I sid sv0 Es) as [?|[?|[? _]]]; congruence.
     - destruct (net_get (net s) a) as [[|j]|] eqn:En; try discriminate.
-      apply get_in in En. destruct (i_own _ _ I _ _ En) as [j Hj]. discriminate.
+      apply get_in in En. destruct (i_own _ _ _ I _ _ En) as [j Hj]. discriminate.
   Qed.
 
   Lemma upd_pc_fwd svs sid p j x :
@@ -320,6 +321,46 @@ Section Step2.
   Proof.
     intros I H. unfold step_core in H. destruct (crashed s); [discriminate|].
     destruct (srv_at s sid) as [sv0|] eqn:Es; [|discriminate]. unfold srv_at in Es.
+    destruct (_ && _) eqn:Eg; [|discriminate]. apply andb_true_iff in Eg as [Esh _].
+    injection H as <-.
+    destruct I. unfold unshut, is_reload in *. open_state s.
+    pose proof (upd_pc_cases svs sid SvExited) as T2. pose proof (upd_pc_fwd svs sid SvExited) as T1.
+    constructor; unfold unshut, is_reload; cbn; auto.
+    - intros Hr. destruct (i_early Hr) as (-> & _). destruct sid; discriminate.
+    - intros Hr. destruct (i_ret Hr) as (A & B & C). split; [exact A|]. split; [exact B|].
+      intros j x' Hn. destruct (T2 _ _ Hn) as (x & Hx & _ & Hs & _). rewrite Hs. eauto.
+    - intros j (x' & Hn & Hs). destruct (T2 _ _ Hn) as (x & Hx & _ & Hs' & _).
+      apply i_live. exists x. split; congruence.
+    - intros j Hj. destruct (i_srv j Hj) as [x Hx]. destruct (T1 _ _ Hx) as (x' & Hx' & _). eauto.
+    - intros j Hk. destruct (i_probe j Hk) as (x & Hx & Hs).
+      destruct (T1 _ _ Hx) as (x' & Hx' & _ & Hs' & _). exists x'. split; congruence.
+    - intros j Hk. destruct (i_wait j Hk) as (A & x & Hx & Hs).
+      destruct (T1 _ _ Hx) as (x' & Hx' & _ & Hs' & _). split; [exact A|]. exists x'. split; congruence.
+    - intros j x' Hn. destruct (T2 _ _ Hn) as (x & Hx & _ & Hs & [[-> Hp]|[Hne ->]]).
+      + right. right. split; [exact Hp|]. rewrite Hs. congruence.
+      + eapply i_pc; eauto.
+    - intros a j Hin. destruct (i_net a j Hin) as (x & Hx & Hs & Hp & Ha).
+      destruct (T1 _ _ Hx) as (x' & Hx' & Hc & Hs' & [[-> Hp']|[Hne ->]]).
+      + congruence.
+      + exists x. auto.
+    - intros j x' Hn Hs Hp. destruct (T2 _ _ Hn) as (x & Hx & Hc & Hs' & [[-> Hp']|[Hne ->]]).
+      + congruence.
+      + eapply i_bound; eauto.
+    - intros j x' Hn Hs Hk1 Hk2. destruct (T2 _ _ Hn) as (x & Hx & Hc & Hs' & [[-> Hp']|[Hne ->]]).
+      + congruence.
+      + eapply i_listen; eauto.
+    - intros j x' Hn Hs Hk. destruct (T2 _ _ Hn) as (x & Hx & Hc & Hs' & _).
+      rewrite Hc. eapply i_cfg; eauto; congruence.
+    - intros Hp. destruct (i_has Hp) as (j & Hj & x & Hx & Hs).
+      destruct (T1 _ _ Hx) as (x' & Hx' & _ & Hs' & _). exists j. split; [exact Hj|]. exists x'. split; congruence.
+    - intros j x' Hn. destruct (T2 _ _ Hn) as (x & Hx & Hc & _). rewrite Hc. eapply i_mux; eauto.
+  Qed.
+
+  Lemma step_ServeSkip s s' sid : Inv s -> step_core s (LServeSkip sid) = Some s' -> Inv s'.
+  Proof.
+    intros I H. unfold step_core in H. destruct (crashed s); [discriminate|].
+    destruct (srv_at s sid) as [sv0|] eqn:Es; [|discriminate]. unfold srv_at in Es.
+    destruct (server s) eqn:Esrv0; [discriminate|]. clear Esrv0.
     destruct (_ && _) eqn:Eg; [|discriminate]. apply andb_true_iff in Eg as [Esh _].
     injection H as <-.
     destruct I. unfold unshut, is_reload in *. open_state s.
@@ -407,15 +448,15 @@ Section Step2.
     apply andb_true_iff in Eg as [Eg _]. apply andb_true_iff in Eg as [Eg En].
     apply andb_true_iff in Eg as [_ Emux]. apply Nat.eqb_eq in En.
     injection H as <-.
-    pose proof (i_wantboot _ _ I Ek) as Hnone.
+    pose proof (i_wantboot _ _ _ I Ek) as Hnone.
     assert (Hall : forall j sv, nth_error (servers s) j = Some sv -> s_shut sv = true).
     { intros j sv0 Hn. destruct (s_shut sv0) eqn:Es; [reflexivity|].
-      destruct (i_live _ _ I j) as [Ho _]; [exists sv0; auto|]. congruence. }
-    assert (Hh : holder s <> None) by (intros E; apply (i_free _ _ I) in E; congruence).
+      destruct (i_live _ _ _ I j) as [Ho _]; [exists sv0; auto|]. congruence. }
+    assert (Hh : holder s <> None) by (intros E; apply (i_free _ _ _ I) in E; congruence).
     assert (Hcase : (holder s = Some ByRun /\ rpc s = RInBoot) \/
                     (exists i, holder s = Some (ByReload i) /\ fsm_st s = FReloading /\ (rpc s = RSelect \/ rpc s = RWantStop))).
     { destruct (holder s) as [[|i]|] eqn:Eh; [| |congruence].
-      - left. destruct (i_run _ _ I Eh) as [[Er _]|[_ Hb]]; [auto|rewrite Ek in Hb; contradiction].
+      - left. destruct (i_run _ _ _ I Eh) as [[Er _]|[_ Hb]]; [auto|rewrite Ek in Hb; contradiction].
       - right. exists i. destruct (reload_rpc s i I Eh). auto. }
     destruct I. unfold unshut, is_reload in *. open_state s. subst.
     set (new := {| s_cfg := c; s_pc := SvStart; s_shut := false |}).
@@ -455,7 +496,7 @@ Section Step2.
     match l with LForeignBind _ => False | _ => True end.
 
   Theorem inv_step s l s' :
-    Inv s -> no_foreign_label l -> step validated mux_ok s l = Some s' -> Inv s'.
+    Inv s -> no_foreign_label l -> step stop_locked validated mux_ok s l = Some s' -> Inv s'.
   Proof.
     intros I Hl H. destruct l; cbn [step] in H; try contradiction.
     - eapply step_RunCall; eauto.
@@ -490,26 +531,28 @@ Section Step2.
     - eapply (step_contra s s' (LBindFail sid)); eauto.
     - eapply (step_contra s s' (LPushErr sid)); eauto.
     - eapply step_LasClosed; eauto.
+    - eapply step_ServeSkip; eauto.
     - eapply (step_contra s s' (LForeignFree a)); eauto.
     - eapply step_frame; eauto; exact Logic.I.
     - eapply step_frame; eauto; exact Logic.I.
     - eapply step_frame; eauto; exact Logic.I.
-    - destruct (crashed s); [discriminate|]. destruct (quiescent _ _ s); [|discriminate]. injection H as <-. exact I.
+    - eapply step_frame; eauto; exact Logic.I.
+    - destruct (crashed s); [discriminate|]. destruct (quiescent _ _ _ s); [|discriminate]. injection H as <-. exact I.
   Qed.
 
   Definition no_foreign (ls : list label) : Prop := Forall no_foreign_label ls.
 
   (* the lift to every schedule (the proof of LTS.run_inv, with the hypothesis on the labels) *)
   Theorem inv_run ls : forall s s',
-    Inv s -> no_foreign ls -> run (step validated mux_ok) s ls = Some s' -> Inv s'.
+    Inv s -> no_foreign ls -> run (step stop_locked validated mux_ok) s ls = Some s' -> Inv s'.
   Proof.
     induction ls as [|l ls IH]; intros s s' I Hn Hr.
     - injection Hr as <-. exact I.
-    - cbn [run] in Hr. destruct (step validated mux_ok s l) as [s1|] eqn:E; [|discriminate].
+    - cbn [run] in Hr. destruct (step stop_locked validated mux_ok s l) as [s1|] eqn:E; [|discriminate].
       inversion Hn; subst. eapply IH; [eapply inv_step; eassumption|assumption|exact Hr].
   Qed.
 
   Corollary inv_reachable c0 ls s :
-    no_foreign ls -> run (step validated mux_ok) (init c0) ls = Some s -> Inv s.
+    no_foreign ls -> run (step stop_locked validated mux_ok) (init c0) ls = Some s -> Inv s.
   Proof. intros Hn Hr. eapply inv_run; [apply inv_init|exact Hn|exact Hr]. Qed.
 End Step2.
